@@ -465,58 +465,7 @@ def r5_scopes(ctx):
         okc = "mahf::state::registry::StateRegistry::into_child" in keys
     ctx.check(okc, "C03.R5", fn.key, "body-runs-on-child", "the scope body is not called on a state built by into_child()", loc=fn.loc())
 
-    # Scope::execute
-    sc = F.method(CF + "Scope", "execute", COMPONENT)
-    sb = sc.body
-    wis = sb.call_sites(lambda c: c.get("key") == "mahf::state::State::with_inner_state")
-    if not ctx.check(len(wis) == 1 and propagated(sb, wis[0][0]), "C03.R5", sc.key, "enters-child-scope", "Scope::execute does not run through with_inner_state()?", loc=sc.loc()):
-        return
-    # closure passed
-    ce = strip(sb.expr_of_op(wis[0][1]["args"][1]))
-    clo = None
-    if ce[0] == "agg" and ce[1] == "closure":
-        clo = F.fn(ce[2])
-    if not ctx.check(clo is not None, "C03.R5", sc.key, "closure", "scope body is not an inline closure", kind="undecided-shape", loc=sc.loc()):
-        return
-    cb = clo.body
-    upv = cb.upvar_names()
-    bidx = F.field_index(CF + "Scope", "body")
-    sidx = F.field_index(CF + "Scope", "state_init")
-    midx = F.field_index(CF + "Scope", "states_merge")
-    pcs = phase_calls(cb)
-    seq = [(p) for (_b, k, p, r, _t) in sorted(pcs, key=lambda x: x[0])]
-    # order by dominance
-    order_ok = len(pcs) == 3 and {p for p in seq} == {"init", "require", "execute"}
-    if order_ok:
-        byp = {c[2]: c for c in pcs}
-        order_ok = ok_dominates(cb, byp["init"][0], byp["require"][0]) and ok_dominates(cb, byp["require"][0], byp["execute"][0])
-        order_ok = order_ok and all(propagated(cb, c[0]) for c in pcs) and all(on_every_ok_path(cb, c[0]) for c in pcs)
-        # all on the closure's state argument (arg 2) and on self.body
-        for c in pcs:
-            st_arg = c[4]["args"][2]
-            leaf, cs, _ = origin(cb.expr_of_op(st_arg))
-            order_ok = order_ok and leaf == ("arg", 2)
-    ctx.check(order_ok, "C03.R5", clo.key, "init-require-execute-on-child",
-              "the scope body is not initialised, checked (against the child's requirements) and executed, in that order, on the child state", loc=clo.loc())
-    # state_init called first (fn pointer call whose callee derives from field state_init)
-    fp = [(bb, t) for bb, t in cb.calls() if t["f"].get("kind") == "fnptr"]
-    okf = False
-    if len(fp) == 1 and pcs:
-        e = cb.expr_of_op(fp[0][1]["f"]["op"])
-        leaf, cs, fields = origin(e)
-        okf = sidx in fields and propagated(cb, fp[0][0]) and all(ok_dominates(cb, fp[0][0], c[0]) for c in pcs)
-    ctx.check(okf, "C03.R5", clo.key, "state_init-first", "state_init is not run (and propagated) before the body's init", loc=clo.loc())
-    # merge after
-    fpm = [(bb, t) for bb, t in sb.calls() if t["f"].get("kind") == "fnptr"]
-    okm = False
-    if len(fpm) == 1:
-        e = sb.expr_of_op(fpm[0][1]["f"]["op"])
-        leaf, cs, fields = origin(e)
-        okm = midx in fields and propagated(sb, fpm[0][0]) and ok_dominates(sb, wis[0][0], fpm[0][0]) and on_every_ok_path(sb, fpm[0][0])
-        # merge receives the inner state returned by with_inner_state
-        a2 = sb.expr_of_op(fpm[0][1]["args"][1])
-        okm = okm and any(x[0] == "call" and x[1] == "mahf::state::State::with_inner_state" for x in subexprs(a2))
-    ctx.check(okm, "C03.R5", sc.key, "merge-after", "states_merge(state, inner) is not applied (and propagated) after the child scope closed", loc=sc.loc())
+    # Scope::execute itself (order, state_init first, merge after, child level) is decided semantically by R9
 
 
 def r6_builder(ctx):
@@ -700,29 +649,104 @@ def _ordinal(body, bb, t):
 
 
 def r8_require(ctx):
+    """K6: require::<_, T>() is Ok exactly when the state contains T, an error otherwise (both answers of contains)"""
+    from absint import Interp, Sym, Agg, TOP, std_oracle, chain
     F = ctx.facts
     fn = F.fn("mahf::state::require::StateReq::require")
-    body = fn.body
-    cs = body.call_sites(lambda c: c.get("key") == "mahf::state::registry::StateRegistry::contains")
-    good = len(cs) == 1 and cs[0][1]["f"]["gargs"] == ["T"]
-    ctx.check(good, "C03.R8", fn.key, "contains-T", "require::<_, T> does not test contains::<T>()", loc=fn.loc())
-    r = body.expr_of_local(0)
-    keys = [x for x in subexprs(r)]
-    uses_contains = any(x[0] == "call" and x[1] == "mahf::state::registry::StateRegistry::contains" for x in keys)
-    err = any(x[0] == "fnconst" and x[1] == "mahf::state::registry::error::StateError::required_missing" for x in keys) or \
-        any(x[0] == "call" and x[1] == "mahf::state::registry::error::StateError::required_missing" for x in keys)
-    neg = any(x[0] == "un" and x[1] == "Not" for x in keys)
-    names = [x[3]["f"].get("name") for x in keys if x[0] == "call"]
-    ctx.check(uses_contains and err and not neg and names[:2] == ["ok_or_else", "then_some"], "C03.R8", fn.key, "missing-is-error",
-              "require does not map `contains` false to RequiredMissing (and true to Ok): %s" % expr_str(r), detail=expr_str(r), loc=fn.loc())
+    bad = []
+    asked = []
+    for present in (True, False):
+        def oracle(interp, env, f, args, t, bb, path, present=present):
+            k = f.get("key", "")
+            if k in ("mahf::state::registry::StateRegistry::contains", "mahf::state::registry::StateRegistry::has", "mahf::state::State::contains", "mahf::state::State::has"):
+                asked.append((f.get("gargs") or [None])[0])
+                return present
+            if k.startswith("mahf::state::registry::StateRegistry::find") or k.startswith("mahf::state::registry::StateRegistry::try_"):
+                asked.append((f.get("gargs") or [None])[0])
+                return Agg("adt", "core::result::Result", "Ok" if present else "Err", [Sym("found" if present else "missing")])
+            return TOP
+        it = Interp(fn.body, chain(oracle, std_oracle), [Sym("self", boxlike=True)], facts=F, inline=lambda k: k.startswith("mahf::state::require::") or k.startswith("<mahf::state::require::") or k.startswith("<mahf::state::State as core::ops::deref"), max_visits=4)
+        outs = {(p.end, p.ret.variant if isinstance(p.ret, Agg) else None) for p in it.run()}
+        want = {("return", "Ok" if present else "Err")}
+        if outs != want:
+            bad.append((present, sorted(map(str, outs))))
+    gen = [p["name"] for p in (fn.generics or {}).get("params", []) if p.get("kind") != "lifetime"]
+    ctx.check(not bad, "C03.R8", fn.key, "missing-is-error", "state contains the required type: %s -> require() yields %s (Ok iff present is required)" % (bad[0] if bad else ("", "")), loc=fn.loc())
+    ctx.check(bool(asked) and all(a == "T" for a in asked), "C03.R8", fn.key, "contains-T", "require::<_, T> does not test the presence of T (asks for %s)" % sorted(set(map(str, asked))), loc=fn.loc())
 
 
 def run(ctx):
-    ctx.guard("C03.R1", "Configuration::run", lambda: r1_run(ctx))
-    ctx.guard("C03.R2", "delegation", lambda: r2_delegation(ctx))
-    ctx.guard("C03.R3", "Loop::execute", lambda: r3_loop_execute(ctx))
-    ctx.guard("C03.R4", "Branch::execute", lambda: r4_branch_execute(ctx))
     ctx.guard("C03.R5", "scopes", lambda: r5_scopes(ctx))
     ctx.guard("C03.R6", "builder", lambda: r6_builder(ctx))
     ctx.guard("C03.R7", "dropped results", lambda: r7_no_dropped_result(ctx))
     ctx.guard("C03.R8", "StateReq::require", lambda: r8_require(ctx))
+    ctx.guard("C03.R9", "bounded program semantics", lambda: r9_program_semantics(ctx))
+
+
+# ------------------------------------------------------------------ R9: bounded structured-program semantics
+
+def r9_program_semantics(ctx):
+    """Every configuration tree with at most N nodes (sequence, while, if/else, scope, opaque leaves; N = 4 quick / 5
+    thorough), every condition script (loops 0..2 passes, branches both ways) and every single fault (each leaf / condition
+    failing in init, require, execute / evaluate; scope init and merge failing): the trace that the MIR of
+    Configuration::run produces - with the real Block / Loop / Branch / Scope / with_inner_state code and virtual calls
+    resolved by the abstract value's type - equals the trace of the corresponding structured program, the result is Ok /
+    the first error, every opened scope is closed again, and the loop counters seen by the components are those of the
+    structured program (fresh in a scope, restored after it)."""
+    import itertools
+    import progsem
+    F = ctx.facts
+    N = 5 if ctx.tier == "thorough" else 4
+    bad = []
+    n_prog = n_run = 0
+    for size in range(1, N + 1):
+        for shape in progsem.trees(size):
+            t = progsem.number(shape, [0, 0, 0])
+            n_prog += 1
+            cs = progsem.conds(t)
+            script_sets = []
+            for kid, kind in cs:
+                script_sets.append([(kid, s) for s in ([(False,), (True, False), (True, True, False)] if kind == "W" else [(True,), (False,)])])
+            lf = progsem.leaves(t)
+            for combo in (itertools.product(*script_sets) if script_sets else [()]):
+                script = {kid: list(s) for kid, s in combo}
+                # multiply nested loop scripts: an inner loop re-reads its script from the start only once; keep scripts short
+                faults = [None] + [(l, ph, 1) for l in lf for ph in ("init", "require", "execute")] + [(kid, ph, 1) for kid, _ in cs for ph in ("init", "evaluate")]
+                if size >= 4 and ctx.tier != "thorough":
+                    faults = faults[:1] + faults[1::3]
+                for fault in faults:
+                    ref = progsem.Ref_(script, fault)
+                    want_res = ref.run(t)
+                    paths = progsem.run_real(F, t, script, fault)
+                    n_run += 1
+                    label = (progsem.show(t), {k: v for k, v in script.items()}, fault)
+                    if len(paths) != 1:
+                        bad.append(label + ("is not decided: %d paths (%s)" % (len(paths), sorted({p.end for p in paths})),))
+                        continue
+                    p = paths[0]
+                    if p.end == "limit":
+                        bad.append(label + ("is not decided: the evaluation bound was reached",))
+                        continue
+                    got_res = p.ret.variant if (p.end == "return" and hasattr(p.ret, "variant")) else p.end
+                    got = list(p.mstate.get("trace", ()))
+                    if got != ref.trace:
+                        k = next((i for i, (a, b) in enumerate(zip(got, ref.trace)) if a != b), min(len(got), len(ref.trace)))
+                        bad.append(label + ("diverges from the structured program at step %d: real code does %s, the structured program does %s (phase, node, scope level, visible loop counter)"
+                                            % (k, got[k] if k < len(got) else "nothing more", ref.trace[k] if k < len(ref.trace) else "nothing more"),))
+                    elif got_res != want_res:
+                        bad.append(label + ("returns %s, the structured program ends with %s" % (got_res, want_res),))
+                    elif p.mstate.get("open", 0) != 0:
+                        bad.append(label + ("leaves %d scope(s) open" % p.mstate.get("open", 0),))
+                    if len(bad) > 5:
+                        break
+                if len(bad) > 5:
+                    break
+            if len(bad) > 5:
+                break
+    cfgrun = F.fn("mahf::configuration::Configuration::run")
+    ctx.check(not bad, "C03.R9", cfgrun.key, "trace-equals-structured-program",
+              "program `%s`, condition scripts %s, fault %s: the configuration %s" % (bad[0] if bad else ("", "", "", "")),
+              detail="%d programs up to %d nodes, %d runs" % (n_prog, N, n_run), loc=cfgrun.loc())
+    ctx.count("programs", n_prog)
+    ctx.count("program_runs", n_run)
+    ctx.floor("C03.R9", "program runs", n_run, 300)
